@@ -167,7 +167,10 @@ class SymFile:
 
     def write_arr(self, arr):
         self._chk()
-        FS.written[self.name].append(("arr", arr))
+        frozen = FArr(arr.length, arr.snapshot(), arr.dt, arr.name)   # content as of this write
+        if hasattr(arr, "packed_from"):
+            frozen.packed_from = arr.packed_from
+        FS.written[self.name].append(("arr", frozen))
         FS.log.append(("write", self.name, "arr", arr.length, arr.dt))
 
 
@@ -296,6 +299,7 @@ class UnpackKernels:
             n = packed.length
             PK = z3.Function(f"PACK{f}", *([IntS] * (f + 1)), IntS)
             _write_arr(packed, n, lambda j, src=src: PK(tag, *[src(j * f + t) for t in range(f)]))
+            packed.packed_from = (src, f, tag, array.length)
         return kp
 
 
